@@ -29,12 +29,13 @@ OP_OF_SIGNS = {v: k for k, v in OPS.items()}
 
 class G:
     """Boolean formula.  kind: true | false | sign | atom | not | and | or"""
-    __slots__ = ("kind", "a", "b", "key")
+    __slots__ = ("kind", "a", "b", "key", "label")
 
     def __init__(self, kind, a=None, b=None):
         self.kind = kind
         self.a = a
         self.b = b
+        self.label = b if kind == "atom" else None
         if kind in ("true", "false"):
             self.key = (kind,)
         elif kind == "sign":
@@ -59,7 +60,10 @@ class G:
             op = OP_OF_SIGNS.get(self.b, f"sign in {sorted(self.b)}")
             return f"({self.a} {op} 0)"
         if self.kind == "atom":
-            return f"[{self.a if not isinstance(self.a, tuple) else ' '.join(map(str, self.a))}]"
+            if self.label:
+                return f"[{self.label}]"
+            txt = str(self.a if not isinstance(self.a, tuple) else ' '.join(map(str, self.a)))
+            return f"[{txt[:80]}]"
         if self.kind == "not":
             return f"not {self.a}"
         j = " and " if self.kind == "and" else " or "
@@ -92,8 +96,8 @@ def compare(op: str, a: Rat, b: Rat) -> G:
     return canon_sign(a.sub(b), OPS[op])
 
 
-def atom(key) -> G:
-    return G("atom", key)
+def atom(key, label=None) -> G:
+    return G("atom", key, label)
 
 
 def g_not(g: G) -> G:
